@@ -26,7 +26,7 @@ func init() {
 // c16Aliases defines the access paths of InsertChain used by the C16 rows (and the C02 subset).
 func c16Aliases(r *Run) string {
 	ic := "protocol.(chainBridge).InsertChain"
-	r.Alias("$ins", "recv.chain.AcquireInsert(fmt.Sprintf(\"Insert momentums in chain-bridge. Start-identifier:%v End-identifier:%v\",list(a0[0].Momentum.Identifier(),a0[(len(a0)-1)].Momentum.Identifier())))")
+	r.Alias("$ins", "recv.chain.AcquireInsert(…)")
 	r.Alias("$st", "recv.chain.GetFrontierMomentumStore()")
 	r.Alias("$front", "$st.GetFrontierMomentum()#0")
 	r.Alias("$head", "a0[iter:][0].Momentum")
@@ -87,11 +87,7 @@ func runC16(r *Run) {
 	applyLoopRules(r, ic)
 	r.Returns(ic, []string{
 		"iter, $st.GetMomentumByHeight(a0[iter].Momentum.Height)#1", "0, nil", "0, $st.GetFrontierMomentum()#1", "0, $st.GetMomentumByHeight(($head.Height-1))#1",
-		"0, errors.Errorf(\"can't link momentums to insert. First momentum Prev is %v but we have no momentum at that height\",list($head.Previous()))",
-		"0, errors.Errorf(\"can't link momentums to insert. First momentum Prev is %v but he have %v\",list($head.Previous(),$target.Identifier()))",
-		"0, errors.Errorf(\"can't rollback to %v. Too far. Frontier is %v. Wanted to be able to insert %v\",list($target.Identifier(),$front.Identifier(),$head.Identifier()))",
-		"0, errors.Errorf(\"won't insert side-chain which is not longer\",nil)",
-		"0, errors.Errorf(\"unable to rollback to %v. Reason:%v\",list($target.Identifier(),recv.chain.RollbackTo($ins,$target.Identifier())))",
+		"0, errors.Errorf(…)",
 		"((iter+1)+iter), recv.supervisor.ApplyBlock($blk)#1",
 		"((iter+1)+iter), recv.chain.ForceAddAccountBlockTransaction($ins,recv.supervisor.ApplyBlock($blk)#0)",
 		"((iter+1)+iter), recv.supervisor.ApplyMomentum($det)#1",
@@ -104,7 +100,7 @@ func runC16(r *Run) {
 	// AddAccountBlocks (gossip path)
 	ab := "protocol.(chainBridge).AddAccountBlocks"
 	r.Order(ab, "vm.(*Supervisor).ApplyBlock", ".AddAccountBlockTransaction", "gossiped blocks are verified before they enter the pool")
-	r.Has(ab, "recv.chain.AddAccountBlockTransaction(recv.chain.AcquireInsert(fmt.Sprintf(\"Insert blocks in chain-bridge. Len:%v\",list(len(a0)))),recv.supervisor.ApplyBlock(a0[(iter+1)])#0)", "the pooled transaction is the supervisor's result for that block, under the fork-choice rule (not forced)")
+	r.Has(ab, "recv.chain.AddAccountBlockTransaction(recv.chain.AcquireInsert(…),recv.supervisor.ApplyBlock(a0[(iter+1)])#0)", "the pooled transaction is the supervisor's result for that block, under the fork-choice rule (not forced)")
 
 	// pool invalidation that the 'already pooled' shortcut relies on
 	r.Has("chain.(*accountPool).DeleteMomentum", "store recv.managers = make(map[types.Address]db.Manager)", "a rolled-back momentum invalidates the whole pool: an unconfirmed block verified against the abandoned branch must not survive as 'already applied'")
